@@ -195,6 +195,27 @@ fn observe<E: Pairing>(who: &str, a: &N, a2: &N, b: &N) -> Result<Vec<(String, V
         }
         o.push(("msm(G2, identity bases)".into(), ser(&m2.into_affine(), false)));
     }
+    // reduction of byte strings into the engine's fields (hash-to-field reads 64 big-endian bytes per coefficient)
+    {
+        use ark_ff::Field;
+        type BPF<E> = <<E as Pairing>::TargetField as Field>::BasePrimeField;
+        let stream: Vec<u8> = {
+            let v = (a + 7u32).pow(3) * (b + 11u32).pow(5) * (a2 + 13u32).pow(7) + 0x1234_5678u32;
+            let mut out = v.to_bytes_le();
+            let seed = out.clone();
+            while out.len() < 160 {
+                let k = out.len();
+                out.push(seed[k % seed.len()].wrapping_mul(31).wrapping_add(k as u8));
+            }
+            out
+        };
+        for len in [0usize, 1, 31, 32, 33, 47, 48, 49, 64, 95, 96, 97, 128, 144, 160] {
+            o.push((format!("Fp::from_be_bytes_mod_order({len} bytes)"), ser(&BPF::<E>::from_be_bytes_mod_order(&stream[..len]), false)));
+            o.push((format!("Fp::from_le_bytes_mod_order({len} bytes)"), ser(&BPF::<E>::from_le_bytes_mod_order(&stream[..len]), false)));
+            o.push((format!("Fr::from_be_bytes_mod_order({len} bytes)"), ser(&E::ScalarField::from_be_bytes_mod_order(&stream[..len]), false)));
+            o.push((format!("Fr::from_le_bytes_mod_order({len} bytes)"), ser(&E::ScalarField::from_le_bytes_mod_order(&stream[..len]), false)));
+        }
+    }
     // zeroize leaves the same state in both engines (fields, points, pairing outputs)
     {
         use zeroize::Zeroize;
